@@ -3,6 +3,7 @@ CONSTANT N = 5
 CONSTANT Gen = TRUE
 CONSTANT KMin = 0
 CONSTANT KMax = 99
+CONSTANT InputPhase = TRUE
 CHECK_DEADLOCK FALSE
 INVARIANT TypeOK
 INVARIANT TargetsInv
